@@ -1,3 +1,4 @@
 pub mod plan;
 pub mod trace;
 pub mod invariance;
+pub mod lifecycle;
